@@ -23,12 +23,12 @@ def gen(rng, tier):
     n = 150 if tier == "quick" else 2500
     cases = []
     for k in range(n):
-        inst, info = GI.rand_instance(rng, max_deg=2, allow_unset=(rng.random() < 0.05))
+        inst, info = GI.rand_instance(rng, max_deg=2, allow_unset=(rng.random() < 0.05), rich=True)
         for op in ("penalty", "uniform_penalty"):
             cases.append({"op": op, "input": inst, "stream": op})
     # zero constraints, and only previously removed ones
     for _ in range(10):
-        inst, info = GI.rand_instance(rng, n_cons=0, n_removed=rng.randint(0, 2), allow_unset=False)
+        inst, info = GI.rand_instance(rng, n_cons=0, n_removed=rng.randint(0, 2), allow_unset=False, rich=True)
         for op in ("penalty", "uniform_penalty"):
             cases.append({"op": op, "input": inst, "stream": op + "/no-active"})
     return cases
